@@ -8,13 +8,19 @@
    VNull = not configured) and every tag text (byte string) resp. every tag AST; no size bound
    occurs except the substitution budget, which is part of the repaired code (D-C16) and a
    parameter here:  budget = Some b  is the repaired loop,  budget = None  the unrepaired one.
+   The callback has two variants as well (Model/Strconv.v format_cfg):  fx = true  is the repaired
+   callback (D-C17g: a float64 is spliced by strconv.FormatFloat(f, 'f', -1, 64)),  fx = false  the
+   unrepaired one (strconv2.FormatAny for every value: 1e+06 for the float64 1000000).  Every
+   theorem holds for both; which one the tree under test is, is read off the running code
+   (tools/props/c16.py, facts probe) and the model is evaluated for that variant.
 
    Reading of the property
      c16_step            one iteration replaces the leftmost innermost placeholder, in place
      c16_replace_hits_match  strings.Replace(result, elr, r, 1) replaces the match itself
      c16_resolve_*       by the configured value when present (nil / empty map / empty list are
                          absent), else by the default (through ParseAny/FormatAny: itself when the
-                         default text is plain), else by nothing
+                         default text is plain), else by nothing; the text of a value is
+                         format_cfg fx (c16_resolve_float: plain digits for a float64 after D-C17g)
      c16_denotational    the loop computes the denotation of the tag AST: "processed as if it had
                          been written with the replacement text"
      c16_terminates*     never a hang after the repair; c16_diverges_refuted: the unrepaired loop
@@ -33,23 +39,23 @@ Definition ph_text (b : bytes) : bytes := b_dollar :: b_lbrace :: b ++ [b_rbrace
    finds something at (i, n) then s = p ++ ${b} ++ t with |p| = i, b free of braces (innermost),
    no match starts left of i (leftmost), and the iteration continues with p ++ r ++ t where r is
    what the resolver returns for b; a resolver error / panic ends the loop with that outcome. *)
-Theorem c16_step : forall cfg exh k s i n,
+Theorem c16_step : forall fx cfg exh k s i n,
   find_first b_dollar s = Some (i, n) ->
   exists p b t,
     s = p ++ ph_text b ++ t /\ length p = i /\ n = (length b + 3)%nat /\ brace_free b = true
     /\ (forall j, (j < i)%nat -> match_at b_dollar (skipn j s) = None)
-    /\ rac_loop b_dollar (resolve cfg) exh (S k) s =
-       match resolve cfg b with
-       | Ok r => rac_loop b_dollar (resolve cfg) exh k (p ++ r ++ t)
+    /\ rac_loop b_dollar (resolve fx cfg) exh (S k) s =
+       match resolve fx cfg b with
+       | Ok r => rac_loop b_dollar (resolve fx cfg) exh k (p ++ r ++ t)
        | Err => Failed
        | Panic => Panicked
        end.
 Proof.
-  intros cfg exh k s i n H.
+  intros fx cfg exh k s i n H.
   destruct (step_spec b_dollar s i n H)
     as (p & b & t & Hs & Hlen & Hn & Hb & Hleft & HM & Hc & Hr).
   exists p, b, t. repeat split; auto.
-  rewrite rac_loop_eq, H, Hc. destruct (resolve cfg b); try reflexivity. now rewrite Hr.
+  rewrite rac_loop_eq, H, Hc. destruct (resolve fx cfg b); try reflexivity. now rewrite Hr.
 Qed.
 
 (* strings.Replace(result, elr, r, 1) replaces the first OCCURRENCE of the matched text; that
@@ -58,31 +64,51 @@ Theorem c16_replace_hits_match : forall s i n,
   find_first b_dollar s = Some (i, n) -> sub_index (firstn n (skipn i s)) s = Some i.
 Proof. exact (sub_index_leftmost b_dollar). Qed.
 
-(* the resolver: ${key} / ${key:default}; key = text before the first colon *)
-Theorem c16_resolve_present : forall cfg key rest,
+(* the resolver: ${key} / ${key:default}; key = text before the first colon.  The text of a value is
+   format_cfg fx: FormatAny, except that the repaired callback writes a float64 in plain digits *)
+Theorem c16_resolve_present : forall fx cfg key rest,
   byte_index b_colon key = None -> rest = [] \/ (exists d, rest = b_colon :: d) ->
   absent (cfg key) = false ->
-  resolve cfg (key ++ rest) = format_any (cfg key).
+  resolve fx cfg (key ++ rest) = format_cfg fx (cfg key).
 Proof. exact resolve_present. Qed.
 
-Theorem c16_resolve_default : forall cfg key d,
-  byte_index b_colon key = None -> d <> [] -> absent (cfg key) = true ->
-  resolve cfg (key ++ b_colon :: d) = rbind (parse_any d) render_value
-  /\ (plain d = true -> resolve cfg (key ++ b_colon :: d) = Ok d).
+(* what format_cfg is: FormatAny for every value before the repair, and after it for every value that is
+   not a float64; a float64 m * 10^e is then written as FormatFloat(f, 'f', -1, 64) writes it *)
+Theorem c16_format_cfg : forall v,
+  format_cfg false v = format_any v
+  /\ ((forall m e, v <> VDec m e) -> format_cfg true v = format_any v)
+  /\ (forall m e, v = VDec m e -> format_cfg true v = Ok (fmt_float_f m e)).
 Proof.
-  intros cfg key d Hk Hd Ha. split; [apply resolve_default; auto|]. intros Hp. apply resolve_default_plain; auto.
+  intros v. split; [apply format_cfg_unrepaired|]. split; [apply format_cfg_not_float|].
+  intros m e ->. reflexivity.
 Qed.
 
-Theorem c16_resolve_unresolvable : forall cfg key rest,
-  byte_index b_colon key = None -> rest = [] \/ rest = [b_colon] -> cfg key = VNull ->
-  resolve cfg (key ++ rest) = Ok [].
+(* a present float64: %v's text (exponent form from 1e6 on and below 1e-4) before the repair D-C17g, plain
+   digits after it *)
+Theorem c16_resolve_float : forall fx cfg key m e,
+  byte_index b_colon key = None -> cfg key = VDec m e ->
+  resolve fx cfg key = Ok (if fx then fmt_float_f m e else fmt_float_v m e).
+Proof. exact resolve_float. Qed.
+
+Theorem c16_resolve_default : forall fx cfg key d,
+  byte_index b_colon key = None -> d <> [] -> absent (cfg key) = true ->
+  resolve fx cfg (key ++ b_colon :: d) = rbind (parse_any d) (render_value fx)
+  /\ (plain d = true -> resolve fx cfg (key ++ b_colon :: d) = Ok d).
 Proof.
-  intros cfg key rest Hk Hr Hv. rewrite (resolve_nodefault cfg key rest Hk Hr); rewrite Hv; reflexivity.
+  intros fx cfg key d Hk Hd Ha. split; [apply resolve_default; auto|]. intros Hp. apply resolve_default_plain; auto.
+Qed.
+
+Theorem c16_resolve_unresolvable : forall fx cfg key rest,
+  byte_index b_colon key = None -> rest = [] \/ rest = [b_colon] -> cfg key = VNull ->
+  resolve fx cfg (key ++ rest) = Ok [].
+Proof.
+  intros fx cfg key rest Hk Hr Hv. rewrite (resolve_nodefault fx cfg key rest Hk Hr); rewrite Hv; reflexivity.
 Qed.
 
 (* "As if written with the replacement text": for every tag given as an AST (literals free of
    braces; placeholders whose body is again a list of parts - nesting in the key and in the
-   default, repetition), every resolver f (in particular resolve cfg for every configuration cfg)
+   default, repetition), every resolver f (in particular resolve fx cfg for every configuration cfg
+   and both variants fx of the callback)
    whose replacement texts on this tag are free of braces ([clean]), and every budget b that covers
    the number of placeholders, the loop returns exactly the denotation of the AST; errors and
    panics of the resolver come out as such, the leftmost innermost one first.
@@ -118,13 +144,13 @@ Proof.
   apply (denotational b_dollar dollar_not_lbrace dollar_not_rbrace f l _ OutOfFuel Hw Hc).
 Qed.
 
-(* After the repair: for every configuration, tag text and budget the ${} stage returns a text or
+(* After the repair D-C16: for every configuration, tag text, budget and variant of the callback the ${} stage returns a text or
    an error (possibly "budget exhausted"), and the answer does not depend on the model's fuel. *)
-Theorem c16_terminates : forall cfg b fuel s,
-  quote_stage cfg (Some b) fuel s <> OutOfFuel
-  /\ forall fuel', quote_stage cfg (Some b) fuel' s = quote_stage cfg (Some b) fuel s.
+Theorem c16_terminates : forall fx cfg b fuel s,
+  quote_stage fx cfg (Some b) fuel s <> OutOfFuel
+  /\ forall fuel', quote_stage fx cfg (Some b) fuel' s = quote_stage fx cfg (Some b) fuel s.
 Proof.
-  intros cfg b fuel s. split; [|reflexivity].
+  intros fx cfg b fuel s. split; [|reflexivity].
   unfold quote_stage, replace_all_content. apply rac_not_fuel. discriminate.
 Qed.
 
@@ -155,26 +181,27 @@ Proof.
 Qed.
 
 (* The unrepaired loop (budget = None) does hang:  a: "${a}"  with the tag text ${a}  is still
-   running after any number of iterations.  (D-C16; repaired by the budget.) *)
+   running after any number of iterations, with either variant of the callback.  (D-C16; repaired
+   by the budget.) *)
 Definition circ_cfg : bytes -> cval :=
   cfg_of [([97%N], VStr [36; 123; 97; 125]%N)].
 Definition circ_tag : bytes := [36; 123; 97; 125]%N.
 
-Theorem c16_diverges_refuted : exists cfg s, forall fuel, quote_stage cfg None fuel s = OutOfFuel.
+Theorem c16_diverges_refuted : exists cfg s, forall fx fuel, quote_stage fx cfg None fuel s = OutOfFuel.
 Proof.
-  exists circ_cfg, circ_tag. induction fuel as [|k IH].
+  exists circ_cfg, circ_tag. intros fx. induction fuel as [|k IH].
   - reflexivity.
   - unfold quote_stage, replace_all_content in *. rewrite rac_loop_eq.
     change (find_first b_dollar circ_tag) with (Some (0%nat, 4%nat)). cbv iota beta.
     change (content (firstn 4 (skipn 0 circ_tag))) with [97%N].
-    change (resolve circ_cfg [97%N]) with (Ok circ_tag). cbv iota beta.
+    replace (resolve fx circ_cfg [97%N]) with (@Ok bytes circ_tag) by (destruct fx; reflexivity). cbv iota beta.
     change (replace_first circ_tag (firstn 4 (skipn 0 circ_tag)) circ_tag) with circ_tag.
     exact IH.
 Qed.
 
 (* ... and the repaired loop ends it with the budget error *)
-Example c16_circular_repaired : quote_stage circ_cfg (Some repo_budget) 0 circ_tag = Exhausted.
-Proof. vm_compute. reflexivity. Qed.
+Example c16_circular_repaired : forall fx, quote_stage fx circ_cfg (Some repo_budget) 0 circ_tag = Exhausted.
+Proof. intros fx. destruct fx; vm_compute; reflexivity. Qed.
 
 (* ---- non-vacuity --------------------------------------------------------------------- *)
 
@@ -189,23 +216,43 @@ Definition ex_ast : list tpart :=
    Ph [Lit [112;111;114;116;58;56;48;56;48]%N];
    Ph [Lit [112;111;114;116;58;56;48;56;48]%N]].
 
-Example c16_denotational_example :
-  forallb wf ex_ast = true /\ forallb (clean (resolve ex_cfg)) ex_ast = true
+Example c16_denotational_example : forall fx,
+  forallb wf ex_ast = true /\ forallb (clean (resolve fx ex_cfg)) ex_ast = true
   /\ ph_count_all ex_ast = 4%nat
-  /\ replace_all_content b_dollar (resolve ex_cfg) (Some repo_budget) 0 (render_all b_dollar ex_ast)
+  /\ replace_all_content b_dollar (resolve fx ex_cfg) (Some repo_budget) 0 (render_all b_dollar ex_ast)
      = Done [112;104;49;113;56;48;56;48;56;48;56;48]%N                      (* "ph1q80808080" *)
-  /\ subst_all (resolve ex_cfg) ex_ast = Ok [112;104;49;113;56;48;56;48;56;48;56;48]%N.
-Proof. vm_compute. repeat split; reflexivity. Qed.
+  /\ subst_all (resolve fx ex_cfg) ex_ast = Ok [112;104;49;113;56;48;56;48;56;48;56;48]%N.
+Proof. intros fx. destruct fx; vm_compute; repeat split; reflexivity. Qed.
 
-Example c16_step_example :
+Example c16_step_example : forall fx,
   find_first b_dollar (render_all b_dollar ex_ast) = Some (5%nat, 10%nat)   (* the inner ${env:dev} *)
-  /\ resolve ex_cfg [101;110;118;58;100;101;118]%N = Ok [100;101;118]%N     (* absent: default dev *)
-  /\ resolve ex_cfg [101;109;58;120]%N = Ok [120]%N                         (* em = {} counts as absent: default x *)
-  /\ resolve ex_cfg [97;46;100;101;118;46;104;111;115;116;58;122]%N = Ok [104;49]%N. (* present wins over default *)
-Proof. vm_compute. repeat split; reflexivity. Qed.
+  /\ resolve fx ex_cfg [101;110;118;58;100;101;118]%N = Ok [100;101;118]%N     (* absent: default dev *)
+  /\ resolve fx ex_cfg [101;109;58;120]%N = Ok [120]%N                         (* em = {} counts as absent: default x *)
+  /\ resolve fx ex_cfg [97;46;100;101;118;46;104;111;115;116;58;122]%N = Ok [104;49]%N. (* present wins over default *)
+Proof. intros fx. destruct fx; vm_compute; repeat split; reflexivity. Qed.
 
-Example c16_natural_example :
+(* float64 values of large and small magnitude:  a = 1000000.0, b = 1e21, c = 0.00001, d = 123456789.5  in the
+   tag text  ${a}|${b}|${c}|${d}|${nope:1000000} : plain digits with the repair D-C17g (the default 1000000,
+   which ParseAny reads as a float64, then comes out as written), %v's exponent forms without it *)
+Definition exf_cfg : bytes -> cval :=
+  cfg_of [([97]%N, VDec 1 6); ([98]%N, VDec 1 21); ([99]%N, VDec 1 (-5)); ([100]%N, VDec 1234567895 (-1))].
+Definition exf_tag : bytes :=
+  [36;123;97;125;124; 36;123;98;125;124; 36;123;99;125;124; 36;123;100;125;124;
+   36;123;110;111;112;101;58;49;48;48;48;48;48;48;125]%N.
+
+Example c16_float_example :
+  quote_stage true exf_cfg (Some repo_budget) 0 exf_tag
+  = Done ([49;48;48;48;48;48;48;124] ++ [49;48;48;48;48;48;48;48;48;48;48;48;48;48;48;48;48;48;48;48;48;48;124]
+          ++ [48;46;48;48;48;48;49;124] ++ [49;50;51;52;53;54;55;56;57;46;53;124] ++ [49;48;48;48;48;48;48])%N
+     (* 1000000|1000000000000000000000|0.00001|123456789.5|1000000 *)
+  /\ quote_stage false exf_cfg (Some repo_budget) 0 exf_tag
+  = Done ([49;101;43;48;54;124] ++ [49;101;43;50;49;124] ++ [49;101;45;48;53;124]
+          ++ [49;46;50;51;52;53;54;55;56;57;53;101;43;48;56;124] ++ [49;101;43;48;54])%N.
+     (* 1e+06|1e+21|1e-05|1.234567895e+08|1e+06 *)
+Proof. split; vm_compute; reflexivity. Qed.
+
+Example c16_natural_example : forall fx,
   count_byte b_lbrace (render_all b_dollar ex_ast) = 4%nat
-  /\ replace_all_content b_dollar (resolve ex_cfg) None 4 (render_all b_dollar ex_ast)
+  /\ replace_all_content b_dollar (resolve fx ex_cfg) None 4 (render_all b_dollar ex_ast)
      = Done [112;104;49;113;56;48;56;48;56;48;56;48]%N.
-Proof. vm_compute. split; reflexivity. Qed.
+Proof. intros fx. destruct fx; vm_compute; split; reflexivity. Qed.
